@@ -55,23 +55,30 @@ fn idx_shape(len: usize) {
 }
 
 /// no panic for EVERY i32 index (incl. i32::MIN), lists of 0..2 elements
-#[cfg_attr(kani, kani::proof)]
-#[cfg_attr(kani, kani::stub(alloc::fmt::format, fmt_stub))]
-#[cfg_attr(verif_replay, test)]
-fn k_retrieve_index() {
-    lib_only!();
-    idx_shape(0);
-    idx_shape(1);
-    idx_shape(2);
+macro_rules! idx_harness {
+    ($name:ident, $n:expr) => {
+        #[cfg_attr(kani, kani::proof)]
+        #[cfg_attr(kani, kani::unwind(4))]
+        #[cfg_attr(kani, kani::stub(alloc::fmt::format, fmt_stub))]
+        #[cfg_attr(verif_replay, test)]
+        fn $name() {
+            lib_only!();
+            idx_shape($n);
+        }
+    };
 }
+idx_harness!(k_retrieve_index_0, 0usize);
+idx_harness!(k_retrieve_index_1, 1usize);
+idx_harness!(k_retrieve_index_2, 2usize);
 
 // ---------------------------------------------------------------------------------------------
 // U-rec: the real RecordTracker against the record-tree model assumed by the Verus units (C02)
 // ---------------------------------------------------------------------------------------------
 const MAXD: usize = 5;
 
-/// all sequences of 4 operations out of {start A, start B, end A, end B}
+/// all sequences of 3 operations out of {start A, start B, end A, end B}
 #[cfg_attr(kani, kani::proof)]
+#[cfg_attr(kani, kani::unwind(5))]
 #[cfg_attr(kani, kani::stub(alloc::fmt::format, fmt_stub))]
 #[cfg_attr(verif_replay, test)]
 fn k_record_tracker() {
@@ -83,7 +90,7 @@ fn k_record_tracker() {
     let mut depth = 0usize;
     let mut finals = 0usize;
     let mut step = 0;
-    while step < 4 {
+    while step < 3 {
         let op: u8 = kani::any();
         kani::assume(op <= 3);
         let name = if op & 1 == 0 { "A" } else { "B" };
@@ -150,52 +157,30 @@ fn call_shape(f: FunctionName, k1: u8, k2: u8) {
     std::mem::forget(args);
 }
 
-#[cfg_attr(kani, kani::proof)]
-#[cfg_attr(kani, kani::stub(alloc::fmt::format, fmt_stub))]
-#[cfg_attr(kani, kani::stub(fancy_regex::Regex::new, regex_new_stub))]
-#[cfg_attr(verif_replay, test)]
-fn k_call_substring_args() {
-    lib_only!();
-    let mut k1 = 0u8;
-    while k1 <= 3 {
-        let mut k2 = 0u8;
-        while k2 <= 3 {
-            call_shape(FunctionName::Substring, k1, k2);
-            k2 += 1;
+macro_rules! call_harness {
+    ($name:ident, $f:expr, $k1:expr, $k2:expr) => {
+        #[cfg_attr(kani, kani::proof)]
+        #[cfg_attr(kani, kani::unwind(4))]
+        #[cfg_attr(kani, kani::stub(alloc::fmt::format, fmt_stub))]
+        #[cfg_attr(kani, kani::stub(fancy_regex::Regex::new, regex_new_stub))]
+        #[cfg_attr(verif_replay, test)]
+        fn $name() {
+            lib_only!();
+            call_shape($f, $k1, $k2);
         }
-        k1 += 1;
-    }
+    };
 }
-
-#[cfg_attr(kani, kani::proof)]
-#[cfg_attr(kani, kani::stub(alloc::fmt::format, fmt_stub))]
-#[cfg_attr(kani, kani::stub(fancy_regex::Regex::new, regex_new_stub))]
-#[cfg_attr(verif_replay, test)]
-fn k_call_join_args() {
-    lib_only!();
-    let mut k1 = 0u8;
-    while k1 <= 3 {
-        call_shape(FunctionName::Join, k1, 1);
-        k1 += 1;
-    }
-}
-
-#[cfg_attr(kani, kani::proof)]
-#[cfg_attr(kani, kani::stub(alloc::fmt::format, fmt_stub))]
-#[cfg_attr(kani, kani::stub(fancy_regex::Regex::new, regex_new_stub))]
-#[cfg_attr(verif_replay, test)]
-fn k_call_regex_replace_args() {
-    lib_only!();
-    let mut k1 = 0u8;
-    while k1 <= 3 {
-        let mut k2 = 0u8;
-        while k2 <= 3 {
-            call_shape(FunctionName::RegexReplace, k1, k2);
-            k2 += 1;
-        }
-        k1 += 1;
-    }
-}
+// argument kinds: 0 = empty selection, 1 = int, 2 = string, 3 = unresolved
+call_harness!(k_call_substring_empty2, FunctionName::Substring, 0u8, 1u8);
+call_harness!(k_call_substring_empty3, FunctionName::Substring, 1u8, 0u8);
+call_harness!(k_call_substring_str, FunctionName::Substring, 2u8, 1u8);
+call_harness!(k_call_substring_unres, FunctionName::Substring, 1u8, 3u8);
+call_harness!(k_call_join_empty, FunctionName::Join, 0u8, 1u8);
+call_harness!(k_call_join_int, FunctionName::Join, 1u8, 1u8);
+call_harness!(k_call_join_unres, FunctionName::Join, 3u8, 1u8);
+call_harness!(k_call_regex_empty2, FunctionName::RegexReplace, 0u8, 2u8);
+call_harness!(k_call_regex_empty3, FunctionName::RegexReplace, 2u8, 0u8);
+call_harness!(k_call_regex_int, FunctionName::RegexReplace, 1u8, 2u8);
 
 /// substring(s, i, j) through the dispatcher: integer offsets that are not valid offsets of the string are skipped,
 /// never silently reinterpreted (C18: "strings for which the offsets are out of range are skipped")
@@ -289,36 +274,41 @@ fn check_entry(e: &ClauseReport<'static>, name: &str, cfg: u8) {
     }
 }
 
-/// all pairs of rule records: status in PASS/FAIL/SKIP x child configuration
-#[cfg_attr(kani, kani::proof)]
-#[cfg_attr(kani, kani::unwind(4))]
-#[cfg_attr(kani, kani::stub(alloc::fmt::format, fmt_stub))]
-#[cfg_attr(verif_replay, test)]
-fn k_report_failed_rules() {
-    lib_only!();
+fn failed_shape(c0: u8, c1: u8) {
     let s0: u8 = kani::any();
     let s1: u8 = kani::any();
     kani::assume(s0 <= 2 && s1 <= 2);
-    let mut c0 = 0u8;
-    while c0 <= 2 {
-        let mut c1 = 0u8;
-        while c1 <= 2 {
-            let mut checks: Vec<EventRecord<'static>> = Vec::with_capacity(2);
-            checks.push(rule_rec("r0", s0, c0));
-            checks.push(rule_rec("r1", s1, c1));
-            let out = report_all_failed_clauses_for_rules(&checks);
-            let want = (s0 == 1) as usize + (s1 == 1) as usize;
-            kani::assert(out.len() == want, "one entry per FAIL rule, none for PASS / SKIP rules (whatever their children contain)");
-            if s0 == 1 {
-                check_entry(&out[0], "r0", c0);
-            }
-            if s1 == 1 {
-                check_entry(&out[want - 1], "r1", c1);
-            }
-            std::mem::forget(out);
-            std::mem::forget(checks);
-            c1 += 1;
-        }
-        c0 += 1;
+    let mut checks: Vec<EventRecord<'static>> = Vec::with_capacity(2);
+    checks.push(rule_rec("r0", s0, c0));
+    checks.push(rule_rec("r1", s1, c1));
+    let out = report_all_failed_clauses_for_rules(&checks);
+    let want = (s0 == 1) as usize + (s1 == 1) as usize;
+    kani::assert(out.len() == want, "one entry per FAIL rule, none for PASS / SKIP rules (whatever their children contain)");
+    if s0 == 1 {
+        check_entry(&out[0], "r0", c0);
     }
+    if s1 == 1 {
+        check_entry(&out[want - 1], "r1", c1);
+    }
+    std::mem::forget(out);
+    std::mem::forget(checks);
 }
+
+/// pairs of rule records: status in PASS/FAIL/SKIP (symbolic) x child configuration (one pair per harness)
+macro_rules! failed_harness {
+    ($name:ident, $c0:expr, $c1:expr) => {
+        #[cfg_attr(kani, kani::proof)]
+        #[cfg_attr(kani, kani::unwind(4))]
+        #[cfg_attr(kani, kani::stub(alloc::fmt::format, fmt_stub))]
+        #[cfg_attr(verif_replay, test)]
+        fn $name() {
+            lib_only!();
+            failed_shape($c0, $c1);
+        }
+    };
+}
+failed_harness!(k_failed_00, 0u8, 0u8);
+failed_harness!(k_failed_01, 0u8, 1u8);
+failed_harness!(k_failed_12, 1u8, 2u8);
+failed_harness!(k_failed_20, 2u8, 0u8);
+failed_harness!(k_failed_11, 1u8, 1u8);
